@@ -112,15 +112,18 @@ def check_case(ctx, c):
     D = sp.diags(rs.uniform(0.2, 7.0, size=nt))
     if not rel("row-rescaling", (D @ Xt).tocsr(), vec):
         return
+    # (c) permutation of support points with their vectors - deliberately right after a call with the original table:
+    #     same shape, different content (anything cached per shape goes stale here)
+    perm = rs.permutation(npts)
+    if not rel("support-permutation", Xt[:, perm].tocsr(), vec[perm]):
+        return
+    if not rel("repeat-after-other-vector-table", Xt, vec):
+        return
     # (b) zero-weight support points with arbitrary vectors
     k = rs.randint(1, 4)
     Xpad = sp.hstack([Xt, sp.csr_matrix((nt, k))]).tocsr()
     vpad = np.vstack([vec, rs.normal(size=(k, dim)) * 10 + shift])
     if not rel("zero-weight-padding", Xpad, vpad):
-        return
-    # (c) permutation of support points with their vectors
-    perm = rs.permutation(npts)
-    if not rel("support-permutation", Xt[:, perm].tocsr(), vec[perm]):
         return
     # (d) split a support point into duplicates sharing its mass
     j = int(rs.randint(npts))
